@@ -64,6 +64,8 @@ def compare_image(region, exp, total):
         if actb == e:
             continue
         st, info = FC.compare_vec(actb, e, 8)
+        if st == 'eq':
+            continue
         if st == 'differs':
             return 'violation', 'octet %d is %s, expected %s; witness: %s' % (o, B.fmt_vec(actb, 8), B.fmt_vec(e, 8), FC.fmt_env(info[1]))
         if st == 'unknown':
@@ -94,41 +96,53 @@ def _one(t):
 
     def args():
         return [Ptr(FC.PDU, 0), bpa.sym_arg('id', 32), Ptr(PL, 0), L, variant & B.mask(Wv)]
-    ws = bpa.analyse(mod, b['build'], lambda: (args(), regs()), max_worlds=4, max_steps=400000, gcache=ctx.gcache)
-    if len(ws) != 1 or ws[0].status != 'ok':
-        return [('undecided', key, '%s (payload %d, variant %d): %s' % (where, L, variant, [w.reason for w in ws]))], 0
-    w = ws[0]
-    st, text = compare_image(w.regions[FC.PDU], exp, total)
-    if st != 'ok':
-        out.append((st, key + ':image', '%s: payload length %d, %s: %s' % (where, L, 'FD' if variant else 'classic', text)))
-    else:
-        n_ok += 1
-    if w.oob:
-        out.append(('violation', key + ':beyond', '%s: payload length %d: %s - beyond the padded message of %d octets'
-                    % (where, L, FC.fmt_oob(w.oob[0]), total)))
-    else:
-        n_ok += 1
-    if w.regions[PL].writes:
-        out.append(('violation', key + ':payload-written', '%s: the caller\'s payload buffer is written' % where))
-    if b['returns_len']:
-        if w.ret != total:
+    ws = bpa.analyse(mod, b['build'], lambda: (args(), regs()), max_worlds=64, max_steps=800000, gcache=ctx.gcache)
+    oks, err = FC.ok_worlds(ws)
+    if err:
+        return [('undecided', key, '%s (payload %d, variant %d): %s' % (where, L, variant, err))], 0
+    for w in oks:
+        with FC.with_world(w.decisions):
+            st, text = compare_image(w.regions[FC.PDU], exp, total)
+        if st != 'ok':
+            out.append((st, key + ':image', '%s: payload length %d, %s: %s' % (where, L, 'FD' if variant else 'classic', text)))
+        if w.oob:
+            out.append(('violation', key + ':beyond', '%s: payload length %d: %s - beyond the padded message of %d octets'
+                        % (where, L, FC.fmt_oob(w.oob[0]), total)))
+        if w.regions[PL].writes:
+            out.append(('violation', key + ':payload-written', '%s: the caller\'s payload buffer is written' % where))
+        if b['returns_len'] and w.ret != total:
             out.append(('violation', key + ':ret', '%s: payload length %d: returns %r, the padded message has %d octets'
                         % (where, L, w.ret, total)))
-        else:
-            n_ok += 1
+        if out:
+            break
+    if not out:
+        n_ok += 3 if b['returns_len'] else 2
     # payload length read back
     if b['payload_len'] and L <= 64:
         def script(m, _):
             m.call(b['build'], args())
             return m.call(b['payload_len'], [Ptr(FC.PDU, 0)])
-        ws2 = bpa.analyse(mod, script, lambda: ([], regs()), max_worlds=4, max_steps=400000, gcache=ctx.gcache)
-        if len(ws2) != 1 or ws2[0].status != 'ok':
-            out.append(('undecided', key, '%s after build: %s' % (b['payload_len'], [x.reason for x in ws2])))
-        elif ws2[0].ret != L:
-            out.append(('violation', key + ':readback', '%s: reports payload length %r for a message built from %d payload octets'
-                        % (FC.fnloc(ctx, b['payload_len']), ws2[0].ret, L)))
+        ws2 = bpa.analyse(mod, script, lambda: ([], regs()), max_worlds=64, max_steps=800000, gcache=ctx.gcache)
+        oks2, err2 = FC.ok_worlds(ws2)
+        if err2:
+            out.append(('undecided', key, '%s after build: %s' % (b['payload_len'], err2)))
         else:
-            n_ok += 1
+            Rl = FC.ret_width(mod, ctx.fn(b['payload_len']))
+            badrb = None
+            for x in oks2:
+                with FC.with_world(x.decisions):
+                    st, info = FC.compare_vec(x.ret, L, Rl)
+                if st == 'differs':
+                    badrb = ('violation', key + ':readback', '%s: reports payload length %s for a message built from %d payload octets'
+                             % (FC.fnloc(ctx, b['payload_len']), x.ret if isinstance(x.ret, int) else B.fmt_vec(x.ret, Rl), L))
+                    break
+                if st == 'unknown':
+                    badrb = ('undecided', key, '%s after build: result undetermined' % b['payload_len'])
+                    break
+            if badrb:
+                out.append(badrb)
+            else:
+                n_ok += 1
     # split sequence: copy, flags, finalise
     if b['set_payload'] and variant == 0:
         x_eff, x_id, x_fdf = fld(f, 'eff'), fld(f, 'can_identifier'), fld(f, 'fdf')
@@ -142,31 +156,46 @@ def _one(t):
             m.call(x_fdf['setter'], [Ptr(FC.PDU, 0), variant])
             m.call(b['finalize'], [Ptr(FC.PDU, 0), L])
             return None
-        ws3 = bpa.analyse(mod, split, lambda: ([], regs()), max_worlds=4, max_steps=400000, gcache=ctx.gcache)
-        if len(ws3) != 1 or ws3[0].status != 'ok':
-            out.append(('undecided', key, 'split build sequence: %s' % [x.reason for x in ws3]))
+        ws3 = bpa.analyse(mod, split, lambda: ([], regs()), max_worlds=64, max_steps=800000, gcache=ctx.gcache)
+        oks3, err3 = FC.ok_worlds(ws3, cap=64)
+        if err3:
+            out.append(('undecided', key, 'split build sequence: %s' % err3))
         else:
-            st, text = compare_image(ws3[0].regions[FC.PDU], exp, total)
-            if st != 'ok' or ws3[0].oob:
-                out.append(('violation' if st != 'undecided' else st, key + ':split',
+            bad3 = None
+            for x in oks3:
+                with FC.with_world(x.decisions):
+                    st, text = compare_image(x.regions[FC.PDU], exp, total)
+                if st != 'ok' or x.oob:
+                    bad3 = ('violation' if st != 'undecided' else st, key + ':split',
                             '%s: copy + field writes + %s for payload length %d do not give the one-call result: %s'
-                            % (FC.fnloc(ctx, b['finalize']), b['finalize'], L, text or FC.fmt_oob(ws3[0].oob[0]))))
+                            % (FC.fnloc(ctx, b['finalize']), b['finalize'], L, text or FC.fmt_oob(x.oob[0])))
+                    break
+            if bad3:
+                out.append(bad3)
             else:
                 n_ok += 1
     # finalise alone
     if variant == 0:
         expf, totalf, padf = expected_message(f, H, L, 0, with_id=False)
-        ws4 = bpa.analyse(mod, b['finalize'], lambda: ([Ptr(FC.PDU, 0), L], regs()), max_worlds=4, gcache=ctx.gcache)
-        if len(ws4) != 1 or ws4[0].status != 'ok':
-            out.append(('undecided', key, '%s alone: %s' % (b['finalize'], [x.reason for x in ws4])))
+        ws4 = bpa.analyse(mod, b['finalize'], lambda: ([Ptr(FC.PDU, 0), L], regs()), max_worlds=16, gcache=ctx.gcache)
+        oks4, err4 = FC.ok_worlds(ws4)
+        if err4:
+            out.append(('undecided', key, '%s alone: %s' % (b['finalize'], err4)))
         else:
-            st, text = compare_image(ws4[0].regions[FC.PDU], expf, totalf)
-            if st != 'ok' or ws4[0].oob:
-                out.append(('violation' if st != 'undecided' else st, key + ':finalize',
-                            '%s: payload length %d: %s' % (FC.fnloc(ctx, b['finalize']), L, text or FC.fmt_oob(ws4[0].oob[0]))))
-            elif b['returns_len'] and ws4[0].ret != totalf:
-                out.append(('violation', key + ':finalize-ret', '%s: payload length %d: returns %r, expected %d'
-                            % (FC.fnloc(ctx, b['finalize']), L, ws4[0].ret, totalf)))
+            bad4 = None
+            for x in oks4:
+                with FC.with_world(x.decisions):
+                    st, text = compare_image(x.regions[FC.PDU], expf, totalf)
+                if st != 'ok' or x.oob:
+                    bad4 = ('violation' if st != 'undecided' else st, key + ':finalize',
+                            '%s: payload length %d: %s' % (FC.fnloc(ctx, b['finalize']), L, text or FC.fmt_oob(x.oob[0])))
+                elif b['returns_len'] and x.ret != totalf:
+                    bad4 = ('violation', key + ':finalize-ret', '%s: payload length %d: returns %r, expected %d'
+                            % (FC.fnloc(ctx, b['finalize']), L, x.ret, totalf))
+                if bad4:
+                    break
+            if bad4:
+                out.append(bad4)
             else:
                 n_ok += 1
     return out, n_ok
